@@ -9,6 +9,7 @@ import (
 	"bytes"
 	"context"
 	"encoding/json"
+	"sort"
 	"sync"
 	"time"
 
@@ -190,6 +191,8 @@ type ciMsg struct {
 	Presence []ciKV  `json:"presence,omitempty"`
 	Pyramid  []ciPyr `json:"pyramid,omitempty"` // chunkinfo.pyramid: what the relay target answers
 	Pre      []ciMsg `json:"pre,omitempty"`     // earlier ChunkInfoResp messages of the same peer
+	// chunkinfo.pyramid: the relay target answers with the honest pyramid of the uploaded file (expanded in the child)
+	RealPyramid bool `json:"realpyramid,omitempty"`
 }
 type ciPyr struct {
 	Hash  string `json:"hash"`
@@ -200,7 +203,7 @@ type ciPyr struct {
 func rawChunks(c *Case) [][]byte {
 	var ch [][]byte
 	for _, h := range c.Raw {
-		ch = append(ch, unhex(h))
+		ch = append(ch, rawBytes(h))
 	}
 	return ch
 }
@@ -268,7 +271,9 @@ func runCIReq(e *env, c *Case) Obs {
 }
 
 func runCIPyramid(e *env, c *Case) Obs {
+	f := e.file()
 	var chunks, reply [][]byte
+	var m *ciMsg
 	if c.Kind == "raw" {
 		// raw: the bytes are the TARGET's answer to a relayed request (client read)
 		reply = rawChunks(c)
@@ -278,10 +283,22 @@ func runCIPyramid(e *env, c *Case) Obs {
 			chunks, reply = reply, nil
 		}
 	} else {
-		var m ciMsg
-		_ = json.Unmarshal(c.Msg, &m)
+		m = &ciMsg{}
+		_ = json.Unmarshal(c.Msg, m)
 		b, _ := proto.Marshal(&cpb.ChunkPyramidReq{RootCid: unhex(m.Root), Target: unhex(m.Target)})
 		chunks = [][]byte{frame(b)}
+		if m.RealPyramid { // the honest pyramid of the uploaded file, entry order fixed, then the Ok marker
+			py, _ := f.trav.GetPyramid(context.Background(), f.root)
+			keys := make([]string, 0, len(py))
+			for k := range py {
+				keys = append(keys, k)
+			}
+			sort.Strings(keys)
+			for _, k := range keys {
+				m.Pyramid = append(m.Pyramid, ciPyr{Hash: k, Chunk: hx.Hex(py[k])})
+			}
+			m.Pyramid = append(m.Pyramid, ciPyr{Ok: true})
+		}
 		for _, p := range m.Pyramid {
 			pb, _ := proto.Marshal(&cpb.ChunkPyramidResp{Hash: unhex(p.Hash), Chunk: unhex(p.Chunk), Ok: p.Ok})
 			reply = append(reply, frame(pb))
@@ -292,8 +309,88 @@ func runCIPyramid(e *env, c *Case) Obs {
 		scen = "pyramid"
 	}
 	n := newCINode(e, scen, reply)
+	o := Obs{Where: "handler", Orc: map[string]bool{}, Lists: map[string][]string{}}
+	if m != nil {
+		// the part of the node state / library answers the front depends on, taken before the message arrives
+		root := boson.NewAddress(unhex(m.Root))
+		o.Orc["root_known"] = scen != "fresh" && root.Equal(f.root)
+		if py, err := f.trav.GetPyramid(context.Background(), root); err == nil {
+			o.Orc["local_ok"] = true
+			for k := range py {
+				o.Lists["local"] = append(o.Lists["local"], k)
+			}
+			sort.Strings(o.Lists["local"])
+		}
+		// what traversal says about the relayed pyramid (collected entries up to the first Ok), on a separate store
+		pm := map[string][]byte{}
+		for _, p := range m.Pyramid {
+			if p.Ok {
+				break
+			}
+			pm[boson.NewAddress(unhex(p.Hash)).String()] = unhex(p.Chunk)
+		}
+		tr := traversal.New(smock.NewStorer())
+		hashes, pieces, err := func() (h [][][]byte, p [][]byte, err error) {
+			defer func() {
+				if recover() != nil {
+					err = context.Canceled
+				}
+			}()
+			return tr.GetChunkHashes(context.Background(), root, pm)
+		}()
+		o.Orc["trav_ok"] = err == nil
+		if err == nil {
+			for _, hs := range hashes {
+				for _, x := range hs {
+					o.Lists["hashes"] = append(o.Lists["hashes"], hx.Hex(x))
+				}
+			}
+			for _, x := range pieces {
+				o.Lists["cids"] = append(o.Lists["cids"], hx.Hex(x))
+			}
+		}
+	}
 	res := driveInbound(n.ci.Protocol(), "chunkpyramid", e.peer.overlay, false, chunks, 45*time.Second)
-	return Obs{Panic: res.panicked, PMsg: res.pmsg, Hang: res.hang, Where: "handler", Err: errBit(res.err), Aux: map[string]int{"replies": countFrames(res.reply)}}
+	n.settle(f.root)
+	o.Panic, o.PMsg, o.Hang, o.Err = res.panicked, res.pmsg, res.hang, errBit(res.err)
+	o.Aux = map[string]int{"replies": countFrames(res.reply)}
+	return o
+}
+
+func coqCIPyramid(c *Case, o *Obs) (string, bool) {
+	var m ciMsg
+	_ = json.Unmarshal(c.Msg, &m)
+	n, _ := idents()
+	if m.RealPyramid {
+		f := newEnv().file()
+		py, _ := f.trav.GetPyramid(context.Background(), f.root)
+		keys := make([]string, 0, len(py))
+		for k := range py {
+			keys = append(keys, k)
+		}
+		sort.Strings(keys)
+		for _, k := range keys {
+			m.Pyramid = append(m.Pyramid, ciPyr{Hash: k, Chunk: ""}) // chunk bodies are not inspected by the model: left out of the Coq term
+		}
+		m.Pyramid = append(m.Pyramid, ciPyr{Ok: true})
+	}
+	sz := len(m.Root) + len(m.Target)
+	var rs []string
+	for _, p := range m.Pyramid {
+		sz += len(p.Hash) + len(p.Chunk)
+		rs = append(rs, hx.CoqApp("mkPyrResp", coqHB(unhex(p.Chunk)), coqHB(unhex(p.Hash)), hx.CoqBool(p.Ok)))
+	}
+	if sz > 2500 {
+		return "", true
+	}
+	local := "None"
+	if o.Orc["local_ok"] {
+		local = hx.CoqSome(coqBytesList(o.Lists["local"]))
+	}
+	st := hx.CoqApp("mkPyrState", coqHB(n.overlay.Bytes()), hx.CoqBool(o.Orc["root_known"]), local)
+	tv := hx.CoqApp("mkTrav", hx.CoqBool(o.Orc["trav_ok"]), coqBytesList(o.Lists["hashes"]), coqBytesList(o.Lists["cids"]))
+	return hx.CoqApp("CCIPyramid", st, hx.CoqApp("mkPyrReq", coqHB(unhex(m.Root)), coqHB(unhex(m.Target))), hx.CoqList(rs, "pyr_resp"), tv,
+		coqOutcome(o), hx.CoqZ(int64(o.Aux["replies"]))), true
 }
 
 // ---------------------------------------------------------------- Coq
@@ -482,6 +579,13 @@ func genChunkinfo(run *hx.Run, add func(*Case)) {
 	for _, py := range pyrs {
 		mk("chunkinfo.pyramid", "fresh", "pyramid-relay-answer", &ciMsg{Root: unknown, Target: peer, Pyramid: py})
 	}
+	// the honest pyramid of the file relayed to a node that does not know it yet: accepted, books updated
+	mk("chunkinfo.pyramid", "fresh", "pyramid-relay-answer-valid", &ciMsg{Root: root, Target: peer, RealPyramid: true})
+	mk("chunkinfo.pyramid", "fresh", "pyramid-relay-answer-valid-other-root", &ciMsg{Root: unknown, Target: peer, RealPyramid: true})
+	mk("chunkinfo.pyramid", "pyramid", "pyramid-request-known-root-other-target", &ciMsg{Root: root, Target: peer})
+	for _, tg := range []string{"", "01", hx.Hex(make([]byte, 64))} {
+		mk("chunkinfo.pyramid", "fresh", "pyramid-relay-odd-target", &ciMsg{Root: unknown, Target: tg, Pyramid: pyrs[2]})
+	}
 	vp, _ := proto.Marshal(&cpb.ChunkPyramidResp{Hash: bytes.Repeat([]byte{7}, 32), Chunk: []byte{1, 2, 3}, Ok: true})
 	for _, chunks := range rawStreams(r, vp, run.N(10, 300)) {
 		add(&Case{H: "chunkinfo.pyramid", Kind: "raw", Scen: "fresh", Raw: hexes(chunks...), Class: "raw-bytes"})
@@ -495,6 +599,6 @@ func genChunkinfo(run *hx.Run, add func(*Case)) {
 func init() {
 	register(&handlerDef{id: "chunkinfo.resp", run: runCIResp, coq: coqCIResp})
 	register(&handlerDef{id: "chunkinfo.req", run: runCIReq, coq: coqCIReq})
-	register(&handlerDef{id: "chunkinfo.pyramid", run: runCIPyramid, coq: nil})
+	register(&handlerDef{id: "chunkinfo.pyramid", run: runCIPyramid, coq: coqCIPyramid})
 	generators = append(generators, genChunkinfo)
 }
